@@ -1,7 +1,7 @@
 """Child-process driver for the C03 checks (run with PYTHONPATH = a freshly built library directory).
 stdin: JSON {"mode": "solver"|"sim", "cases": [...]} ; stdout: JSON list of results (doubles as C99 hex strings).
 Running the library in a child lets the harness put a timeout on it (a hang is a finding, not a stuck check)."""
-import ctypes, json, sys, warnings
+import ctypes, json, math, sys, warnings
 
 warnings.filterwarnings("ignore")
 import rebound
@@ -48,6 +48,7 @@ def configure(sim, integ, c):
         sim.ri_whfast.kernel = c.get("kernel", "default")
         sim.ri_whfast.corrector = c.get("corrector", 0)
     if integ == "saba":
+        sim.ri_whfast.coordinates = "jacobi"      # SABA shares ri_whfast and insists on Jacobi coordinates
         sim.ri_saba.type = c.get("saba_type", "10,6,4")
         sim.ri_saba.safe_mode = c.get("safe_mode", 1)
     if integ == "mercurius":
@@ -115,7 +116,9 @@ def sim_cases(cases):
             ps = sim.particles
             res = {"before": before, "state": [[getattr(ps[i], n).hex() for n in C6] for i in range(sim.N)],
                    # time advanced by the measured step: exactly the requested dt iff t1 == t0 + dt in binary64
-                   "t": (fh(c["dt"]) if sim.t == t0 + fh(c["dt"]) else sim.t - t0).hex(), "dt": sim.dt.hex()}
+                   # (within 2 ulp: the library may accumulate the time with a compensation term)
+                   "t": (fh(c["dt"]) if abs(sim.t - (t0 + fh(c["dt"]))) <= 2 * math.ulp(max(abs(t0), abs(sim.t)))
+                         else sim.t - t0).hex(), "dt": sim.dt.hex()}
         except Exception as e:   # rebound raises on reb_simulation_error
             res = {"error": repr(e)[:300]}
         out.append(res)
